@@ -5,7 +5,7 @@ use triomphe::Arc;
 
 fn main() {
     let mut t = Tally::new();
-    for r in 0..rounds(3) {
+    for r in 0..rounds(5) {
         let old = 300 + r as u64;
         let new = old + 500;
         let mut th = Thin::make(old);
